@@ -62,6 +62,9 @@ NoWakers == << >>
 WB_far == (1 :> 4097)
 WB_two == (10 :> 10) @@ (262154 :> 262154)   \* two bitmaps announced through the same poll-waker slot
 S_w2d == (1 :> <<<<"wake", 10>>>>) @@ (2 :> <<<<"wake", 262154>>, <<"wake", 262154>>>>)
+\* a slot of the first bitmap is recycled while a Waker of a second-generation bitmap (same poll-waker slot) is alive
+S_wr2 == (1 :> <<<<"drop", 10>>>>) @@ (2 :> <<<<"wake", 262154>>>>)
+M_recycle2 == <<<<"poll">>, <<"create">>, <<"wake", 1000>>, <<"poll">>, <<"drop", 1000>>>>
 WB_ext == (8 :> 1) @@ (1 :> 2)               \* a plain Waker (slab index 1) next to the channel's Waker (index 2)
 S_ext == (1 :> <<<<"send", 1>>, <<"send", 2>>>>) @@ (2 :> <<<<"wake", 8>>, <<"wake", 8>>>>)
 WB_ctl == (7 :> 1) @@ (1 :> 2)               \* control Waker (slab index 1) + the channel's Waker (index 2)
